@@ -580,4 +580,23 @@ theorem rinv_step {a b : Cfg St Th} (h : RInv a) (hstep : Step (sys true) a b) :
         · exact r2
         · exact runKeys_frame hf hl u (hSt u (by simp [h2])) (k2 u (by simp [h2]))
 
+/-- The configuration invariant holds in every configuration reachable from a fresh daemon and a pool of
+callers that have not begun their calls. -/
+theorem rinv_reach {ts ts' : List Th} {s : St} (hinit : ∀ t, t ∈ ts → t.isInit = true)
+    (hr : Reach (sys true) (init, ts) (s, ts')) : RInv (s, ts') := by
+  refine inv_induction (S := sys true) RInv (c0 := (init, ts)) (c := (s, ts')) ?_ (fun a b ha hs => rinv_step ha hs) hr
+  refine ⟨inv_init, ?_, ?_⟩
+  · intro t ht
+    have := hinit t ht
+    cases t with
+    | runner c pc => cases pc <;> first | trivial | simp [Th.isInit] at this
+    | _ => trivial
+  · intro _
+    refine ⟨rfl, ?_⟩
+    intro t ht
+    have := hinit t ht
+    cases t with
+    | runner c pc => cases pc <;> first | trivial | simp [Th.isInit] at this
+    | _ => trivial
+
 end Hive.Daemon
